@@ -375,5 +375,36 @@ def pmap(func, items, procs: int = None, chunksize: int = 4):
         return pool.map(func, items, chunksize=chunksize)
 
 
+def taken_behaviours(trans, key=lambda st: json.dumps(st, sort_keys=True)):
+    """`tlc -simulate` evaluates the ACTION_CONSTRAINT dump on every CANDIDATE successor before it
+    picks one, so the printed lines are groups of candidates per level.  Reconstruct the behaviours
+    actually taken: in each group the chosen transition is the one whose post-state is the
+    pre-state of the next group (lines need fields lvl, pre, post).  The last group of a behaviour
+    has no successor group and is dropped."""
+    groups = []
+    for t in trans:
+        if groups and groups[-1][0]['lvl'] == t['lvl'] and key(groups[-1][0]['pre']) == key(t['pre']):
+            groups[-1].append(t)
+        else:
+            groups.append([t])
+    behaviours, cur = [], None
+    for gi, grp in enumerate(groups):
+        if grp[0]['lvl'] == 1:
+            cur = []
+            behaviours.append(cur)
+        if cur is None:
+            continue
+        nxt = groups[gi + 1] if gi + 1 < len(groups) else None
+        if nxt is None or nxt[0]['lvl'] != grp[0]['lvl'] + 1:
+            continue
+        want = key(nxt[0]['pre'])
+        chosen = next((t for t in grp if key(t['post']) == want), None)
+        if chosen is None:
+            cur = None      # cannot reconstruct further: stop this behaviour
+            continue
+        cur.append(chosen)
+    return [b for b in behaviours if b]
+
+
 def rng_for(seed: int, tag: str) -> random.Random:
     return random.Random(f'{seed}:{tag}')
